@@ -18,16 +18,21 @@ T_ORD = 'core::cmp::Ord'
 
 
 def run_job(job):
-    kind, form, ty, p, q = job
-    db = get_db()
+    cfg = 'default'
+    lt = rt = 'Decimal'
+    if len(job) > 5:
+        kind, form, ty, p, q, cfg, lt, rt = job
+    else:
+        kind, form, ty, p, q = job
+    db = get_db(cfg)
     if form == 'DD':
-        targs = ['Decimal', 'Decimal']
+        targs = [lt, rt]
     elif form == 'DI':
         targs = ['Decimal', ty]
     else:
         targs = [ty, 'Decimal']
     if kind == 'cmp':
-        fn = find_root(db, T_ORD, ['Decimal'], 'cmp')
+        fn = find_root(db, T_ORD, [lt], 'cmp')
     elif kind == 'partial_cmp':
         fn = find_root(db, T_PORD, targs, 'partial_cmp')
     else:
@@ -36,6 +41,10 @@ def run_job(job):
     st = I.new_state()
     if form == 'DD':
         xa, ya = dec_val(st, 'x', p), dec_val(st, 'y', q)
+        if lt != 'Decimal':
+            xa = Agg('fpdec::' + lt, 0, xa.fields)
+        if rt != 'Decimal':
+            ya = Agg('fpdec::' + rt, 0, ya.fields)
         xc, yc = xa.fields[0], ya.fields[0]
     elif form == 'DI':
         xa, ya = dec_val(st, 'x', p), int_val(st, 'y', ty)
@@ -50,6 +59,8 @@ def run_job(job):
     I.call_root(st, fn, [ByRef(xa), ByRef(ya)])
     outs = I.explore(st)
     key = '%s;%s;%s;p=%d;q=%d' % (kind, form, ty or '-', p, q)
+    if cfg != 'default':
+        key = '%s;%s<%s,%s>;p=%d;q=%d' % (cfg, kind, lt, rt, p, q)
     bad = []
     n_ret = 0
     for o in outs:
@@ -86,7 +97,7 @@ def run_job(job):
                     bad.append('eq is false on a path where %s may be zero' % show_poly(s2, D))
     if n_ret == 0:
         bad.append('no returning path')
-    return [('B-CMP', key, not bad, '; '.join(bad[:4]) if bad else 'paths=%d decide sign(%s)' % (len(outs), show_poly(st, D)), None)]
+    return [('B-CMP' if cfg == 'default' else 'B-CMP-ARCHIVED', key, not bad, '; '.join(bad[:4]) if bad else 'paths=%d decide sign(%s)' % (len(outs), show_poly(st, D)), None)]
 
 
 def run(rep, tier):
